@@ -4,6 +4,7 @@ import (
 	"fmt"
 	"math"
 
+	"github.com/tsawler/tabula/font"
 	"github.com/tsawler/tabula/model"
 )
 
@@ -31,6 +32,13 @@ type TextState struct {
 	// Font and size
 	FontName string
 	FontSize float64
+
+	// Font is the font the resource name FontName was bound to when Tf
+	// selected it (nil if no font has been selected). A resource name means
+	// something only in the resource dictionary in force when Tf runs, so the
+	// selection is the font itself: like the rest of the text state it is
+	// saved and restored by q/Q and inherited by a Form XObject.
+	Font *font.Font
 
 	// Character and word spacing
 	CharSpacing float64
